@@ -34,6 +34,8 @@ SPEC = {
     'trusted_base': ['shlex safe set of POSIX sh', 'zlib wbits container table', 're._parser'],
     'assumptions': [], 'exhaustive': True,
 }
+SPEC['explanation'] += ' T7.gap: inside the loop of format_int_list a run is written out only on paths whose integer tests on `x - <end of run>` exclude 0 and 1 (a duplicate never closes a run).'
+SPEC['decided'] += ['run closed only on a gap']
 MANIFEST = {
     'technique': 'regex-AST class extraction vs frozen POSIX table; guarded-emission and ordering checks on CFG paths; constant folding of wbits',
     'text': ('Decides, exhaustively over the character class, that args2sh never emits an unsafe character unquoted (including '
@@ -78,13 +80,17 @@ def run_closing(ctx, prog):
                 neg = False
                 while isinstance(e, ast.UnaryOp) and isinstance(e.op, ast.Not):
                     e, neg = e.operand, not neg
-                if isinstance(e, ast.Compare) and len(e.ops) == 1 and type(e.ops[0]) in OPS and isinstance(e.left, ast.BinOp) and \
-                        isinstance(e.left.op, ast.Sub) and isinstance(e.comparators[0], ast.Constant) and \
-                        isinstance(e.comparators[0].value, int):
+                if not (isinstance(e, ast.Compare) and len(e.ops) == 1 and type(e.ops[0]) in OPS):
+                    continue
+                l, r, f = e.left, e.comparators[0], OPS[type(e.ops[0])]
+                if isinstance(l, ast.Constant) and isinstance(r, ast.BinOp):          # 1 < delta
+                    l, r, f = r, l, (lambda g: (lambda a, b: g(b, a)))(f)
+                if isinstance(l, ast.BinOp) and isinstance(l.op, ast.Sub) and isinstance(r, ast.Constant) and \
+                        isinstance(r.value, int) and not isinstance(r.value, bool):
                     truth = o.info if isinstance(o.info, bool) else None
                     if truth is None:
                         continue
-                    cons.append((OPS[type(e.ops[0])], e.comparators[0].value, truth != neg))
+                    cons.append((f, r.value, truth != neg))
             admits = [d for d in (0, 1) if all(f(d, c) == t for f, c, t in cons)]
             key = closes[0].line
             ok = not admits
